@@ -19,7 +19,7 @@ CHECKS = {
         engine="vmp+bex",
         category="model_checking",
         design_ref="5/C01",
-        technique="stateful exhaustive interleaving exploration of the real parallel walk under a virtual scheduler + exhaustive filter/apex enumeration vs reference quadtree",
+        technique="stateful exhaustive interleaving exploration of the real parallel walk under a virtual scheduler (one history configuration deviation-bounded in the quick tier, unbounded in thorough) + exhaustive filter/apex enumeration vs reference quadtree",
         text="Every interleaving of dispatcher, queue feeders, workers and receive timeouts of the real _walk_parallel/_mp_walk_worker is explored for 60+ small pyramids (generic, TOAST, a 51-filter family covering every live-children mask incl. accepted-but-childless tiles, sub-pyramid apexes, 1-3 workers) with an invariant monitor (exactly once, only live non-leaf tiles, parent after live children) and a backward-reachability termination analysis of the state graph; the serial walk is checked on every effective depth-2 filter (17^4) and every apex against a reference quadtree. The schedule quantifier cannot be reached by tests; exhaustive exploration of small configurations is the appropriate level.",
         note=_E1_NOTE,
     ),
@@ -175,6 +175,30 @@ CHECKS = {
         text="Every combination of 1-3 synthetic multi-extension files (3 layouts), hdu_index in {None, scalar, every per-file list}, wcs_key in {scalar, every per-file list} and entry point (load, SimpleFitsCollection, CLI option parser, tile_fits end-to-end) is executed and compared with direct astropy reads; the space is finite and fully enumerated, which is the right level for a pure configuration-quantified lookup property.",
         note="Trusts astropy.io.fits/astropy.wcs as the oracle; selections naming table/empty HDUs are outside the property.",
     ),
+}
+
+# additions made after the fifth wave of seeded changes (appended to the level text)
+ADDENDA = {
+    "C01": "Histories in one process: a parallel walk after an earlier parallel walk (state surviving a walk), including one in which the re-used position has four live children and callbacks take time - quick explores every schedule within 3 departures from the default order (bound named in the evidence), thorough within 6 and unbounded; nine of the 51 filters also run with a scheduling point inside each callback; one configuration with a foreign idle child process of the caller.",
+    "C02": "Re-cascade history on one directory (leaves removed or made undefined between two cascades: stale parents must go); leaves of NaN and infinities; CLI and Builder entry points.",
+    "C03": "Transform runs with distinguishable input/output pyramid arguments.",
+    "C04": "Lookups near tile corners on a deep lattice to depth 26 (28); tiles held while the other coordinate system is used.",
+    "C05": "sample_layer end to end, serial and with real worker processes, npy and FITS: the stored tiles hold the coordinates the sampler received (lon + 10 lat) and must equal the deeper tiles' centres row for row.",
+    "C06": "Partial RGBA updates of PNG tiles holding opaque black pixels after a tile-allsky run with --black-to-transparent in the same process; the tile-allsky command itself; a sampler undefined over whole tiles on a fresh and on an existing directory.",
+    "C07": "Footprints with the pole off-centre along the long axis of non-square images; one filter object used with both coordinate systems in turn.",
+    "C08": "Re-tiling over a complete earlier tiling with an image undefined over a whole tile; parent tiling immutable under compute_for_subimage; blocks of infinities; full I32 range.",
+    "C09": "DATAMIN/DATAMAX cards of the deepest tiles compared between the two routes; inputs read from FITS files with blank borders marked by --blankval values 0.0, -999 and 0; mixed-parity collections with CD-matrix headers.",
+    "C10": "Updaters contributing no defined pixel, and the non-clobbering TOAST sampler as an updater (whole-tile and partial coverage); file removals are part of the explored state.",
+    "C11": "Second sampler kept alive between requests; consecutive requests of one shape with equal end points; read-only request arrays, which must come back unchanged.",
+    "C12": "A lookup in the other coordinate system immediately before each judged one; deep descents to depth 14/20/23/24 with a tolerance of 1e-3 tile widths plus the double-precision resolution of a tile side; pixel clause at 2-3 turns.",
+    "C13": "One-instance histories (count, restrict, count again; a refused subpyramid() then further use); geometry of the tiles handed to visit_leaves, both coordinate systems.",
+    "C14": "One Builder cascading three times while the base layer's range widens and narrows; an all-NaN leaf file saved through Image.save right after a tile of another pyramid; constant leaves; multi-image TOAST FITS tiling.",
+    "C15": "Histories preceded by loading an input image through the command-line loader with every option away from its default; explicit format= differing from the pyramid default; infinities as defined values.",
+    "C16": "ensure/flip/ensure histories, PIL-backed images, exactly-zero matrix entries, a WCS instance shared by two images.",
+    "C17": "Pipeline with the LXY scheme and a single-tile image; a faulted first call followed by reuse of the directory.",
+    "C18": "Recovery on the same manager object as well as a fresh one; OSError raised inside the store's own copy.",
+    "C19": "A foreign idle child process of the caller while a walk worker fails or is killed (multiprocessing.active_children virtualised); a six-image multi-TAN run failing on the first image (more images than queue and workers absorb); read faults inside the cascade.",
+    "C20": "The `toasty view --tile-only` and `toasty tile-multi-tan` commands; file names whose sort order is the reverse of the input order; cubes and repeated paths.",
 }
 
 NOT_APPLICABLE = {("C%02d" % i): _PENDING for i in range(1, 21)}
